@@ -4,7 +4,7 @@ from __future__ import annotations
 from typing import List
 
 import safeds_stubgen.stubs_generator._stub_string_generator as SG
-from harness.zoo import N_FUN_SHAPES, Cur, Names, build_class, build_function, rd
+from harness.zoo import N_CLS_SHAPES, N_FUN_SHAPES, Cur, Names, build_class, build_function, rd
 from oracle.recogniser import StubSyntaxError, parse, parse_decl
 from oracle.todo_ref import BY_TEXT, TEXT, attribute_markers, class_markers, function_markers, property_markers
 from safeds_stubgen.api_analyzer._types import NamedType
@@ -65,9 +65,9 @@ def sequence(sel: List[int]) -> bool:
                 decls.append(build_function(api, m, rd(sel, cur, N_FUN_SHAPES), names, cls_ref=ref))
         elif layout == 1:
             decls.append(build_function(api, m, rd(sel, cur, N_FUN_SHAPES), names, cls_ref=ref))
-            decls.append(build_class(api, m, rd(sel, cur, 12), names, other=other))
+            decls.append(build_class(api, m, rd(sel, cur, N_CLS_SHAPES), names, other=other))
         else:
-            decls.append(build_class(api, m, rd(sel, cur, 12), names, other=other))
+            decls.append(build_class(api, m, rd(sel, cur, N_CLS_SHAPES), names, other=other))
             decls.append(build_function(api, m, rd(sel, cur, N_FUN_SHAPES), names, cls_ref=ref))
     except OutOfRange:
         return True
@@ -118,7 +118,7 @@ def flush_step(sel: List[int]) -> bool:
         cur = Cur()
         kind = rd(sel, cur, 4)  # function, class, attribute(s) of a class, property
         shape = rd(sel, cur, N_FUN_SHAPES)
-        if kind != 0 and shape >= 12:
+        if kind != 0 and shape >= N_CLS_SHAPES:
             raise OutOfRange
         pend = set()
         for _ in range(2):
